@@ -25,6 +25,8 @@ def variants(prop):
         patch = os.path.join(d, "patch.diff")
         if os.path.exists(meta) and os.path.exists(patch):
             m = json.load(open(meta))
+            if m.get("undetected"):
+                continue  # recorded as not detectable by this family (see meta.json / DESIGN.md)
             props = m.get("detected_by") or [m.get("property")]
             if prop in props:
                 must.append(("seeded/" + os.path.basename(d), patch, m.get("expect_rule")))
